@@ -39,3 +39,33 @@ func H_C02_docx_numeric_fields() {
 	}
 	vReach("end")
 }
+
+// H_C02_docx_style_based_on_cycles: w:basedOn links written as a cycle are resolved in bounded time.
+//
+//symgo:harness prop=C02 kernel=docx-style-cycles hang=1 loop=5000 steps=50000000 noreplay=1
+//symgo:redirect archive/zip.OpenReader vStubOpenZip
+//symgo:desc zip layer cut (member content model); paragraph styles S1, S2, S3 whose w:basedOn links form (enumerated) a chain, a self-loop, a 2-cycle, a 3-cycle through the start, or a cycle that does not pass through the start (S1->S2->S3->S2); a paragraph in style S1: Open, Text, Markdown and Document return within the loop bound 5000
+func H_C02_docx_style_based_on_cycles() {
+	parents := [][3]string{{"S2", "S3", ""}, {"S1", "", ""}, {"S2", "S1", ""}, {"S2", "S3", "S1"}, {"S2", "S3", "S2"}}[vAnyIntIn(0, 4)]
+	styles := `<?xml version="1.0"?><w:styles ` + vWNS + `>`
+	for i, n := range []string{"S1", "S2", "S3"} {
+		based := ""
+		if parents[i] != "" {
+			based = `<w:basedOn w:val="` + parents[i] + `"/>`
+		}
+		styles += `<w:style w:type="paragraph" w:customStyle="1" w:styleId="` + n + `"><w:name w:val="Style ` + n + `"/>` + based + `<w:rPr><w:b/></w:rPr></w:style>`
+	}
+	styles += `</w:styles>`
+	vZip = &zip.ReadCloser{}
+	vMember("[Content_Types].xml", `<?xml version="1.0"?><Types xmlns="http://schemas.openxmlformats.org/package/2006/content-types"/>`)
+	vMember("word/document.xml", `<?xml version="1.0"?><w:document `+vWNS+`><w:body><w:p><w:pPr><w:pStyle w:val="S1"/></w:pPr><w:r><w:t>Body text.</w:t></w:r></w:p><w:sectPr/></w:body></w:document>`)
+	vMember("word/styles.xml", styles)
+	r, err := Open("any.docx")
+	if err == nil && r != nil {
+		_, _ = r.Text()
+		_, _ = r.Markdown()
+		_, _ = r.Document()
+		_ = r.Close()
+	}
+	vReach("end")
+}
